@@ -4,7 +4,7 @@ Reference: vp.gen.mfl - an independent recursive-descent MFL reader that expands
 option sets, an enumerator of the stepwise paths that docs/modelsearch.rst allows, and plain enumerations of set
 partitions / subsets.  pharmpy's ModelFeatures objects are *observed* by attribute access only.
 
-Families of cases (idx % 20):
+Families of cases (drawn from the case index, see family_of; the first cases are the docs examples):
   single   text -> parse vs reference (L0), repr round trip (L1), reflexive ==, convert_to_funcs keys,
            all_combinations = cartesian product, refusal of ungrammatical mutations
   pair     related pairs: + (L2), - (L3), == and its symmetry (L4), contain_subset (L5), round trip of results
@@ -48,7 +48,7 @@ ASSUMPTIONS = [
     "features removed, sorted by name and first argument); MET peripherals and fixed etas are not generated",
     "networkx graph of the Workflow is read directly; the workflow classes are trusted here (C17)",
 ]
-MIN_NONTRIVIAL = {"quick": 1500, "thorough": 15000}
+MIN_NONTRIVIAL = {"quick": 1500, "thorough": 12000}
 REQUIRED_MONITORS = [
     "L0_parse_vs_reference", "L1_roundtrip_space", "L1_roundtrip_eq", "L2_add", "L3_sub", "L4_eq", "L4_eq_symmetry",
     "L5_contain_subset", "L6_lnt", "funcs_keys", "all_combinations", "exhaustive", "exhaustive_stepwise",
@@ -72,13 +72,13 @@ K_SINGLE_GROUP = "C18/reduced-stepwise-single-group-not-merged"
 K_SET_ORDER = "C18/exhaustive-func-set-order"
 K_LNT_INDIRECT = "C18/lnt-indirect-effect-keyerror"
 
-FAMILIES = ["single"] * 8 + ["pair"] * 7 + ["lnt", "enum", "enum", "iiv", "expand"]
+FAMILIES = ["single"] * 16 + ["pair"] * 14 + ["lnt"] * 2 + ["enum"] * 5 + ["iiv"] + ["expand"] * 2
 
 _MODELS = {}
 
 
 def n_cases(tier):
-    return 6000 if tier == "quick" else 90000
+    return 6000 if tier == "quick" else 60000
 
 
 def setup(tier):
@@ -118,16 +118,28 @@ REF_MEANING = {
 
 
 def P(text):
+    """pharmpy's parser; a text is parsed once per case (the laws are evaluated on the same objects)."""
     from pharmpy.tools.mfl.parse import parse
 
-    return parse(text, mfl_class=True)
+    if text not in _PARSED:
+        _PARSED[text] = parse(text, mfl_class=True)
+    return _PARSED[text]
+
+
+def family_of(idx):
+    # drawn from the index alone (same for every seed) but not periodic, so that the worker striding of the farm
+    # does not send all cases of an expensive family to the same few workers
+    return FAMILIES[random.Random(f"C18-family:{idx}").randrange(len(FAMILIES))]
+
+
+_PARSED = {}
 
 
 def run_case(rng, idx, tier):
-    fam = FAMILIES[idx % len(FAMILIES)]
+    _PARSED.clear()
     if idx < len(DOC_CASES):
         return case_docs(rng, idx)
-    return globals()["case_" + fam](rng, idx, tier)
+    return globals()["case_" + family_of(idx)](rng, idx, tier)
 
 
 # ------------------------------------------------------------------------------------------ helpers
@@ -943,7 +955,7 @@ def case_enum(rng, idx, tier):
     from pharmpy.tools.modelsearch import algorithms as alg
 
     c = Case()
-    algorithm = ["exhaustive", "exhaustive_stepwise", "reduced_stepwise"][(idx // len(FAMILIES)) % 3]
+    algorithm = rng.choice(["exhaustive", "exhaustive_stepwise", "reduced_stepwise"])
     intent = rng.choices([i for i, _ in ENUM_INTENTS], [w for _, w in ENUM_INTENTS])[0]
     if algorithm == "exhaustive" and intent in ("step-excl", "periph3"):
         intent = "A"
@@ -1026,7 +1038,7 @@ def case_enum(rng, idx, tier):
             key = K_SINGLE_GROUP
         elif len(trig) == 1:
             ks = enum_delta(next(iter(trig)), keys)
-            if ks is not None and len(ks) >= 2:
+            if ks is not None and len(ks) >= 1:
                 wf2, _ = alg.reduced_stepwise({k: _func_for(all_funcs, k) for k in ks}, iiv_strategy)
                 n2 = {key_name(k): k for k in ks}
                 got2 = Counter((frozenset(n2[a.name] for a in anc), n2[t.name]) for t, anc in feature_ancestry(wf2._g, n2))
@@ -1042,7 +1054,7 @@ def case_enum(rng, idx, tier):
 
 
 def _func_for(all_funcs, k):
-    return all_funcs[k] if k in all_funcs else HashFn(hash(k) & 0xffff, k)
+    return all_funcs[k] if k in all_funcs else HashFn(1, k)
 
 
 def _rerun_stepwise(alg, all_funcs, ks, iiv_strategy):
@@ -1173,7 +1185,7 @@ def case_iiv(rng, idx, tier):
 
     # iivsearch brute force on a model with chosen etas, block structure and keep list
     base = _MODELS["iiv6"]
-    k = rng.randint(1, 6)
+    k = rng.choice([1, 2, 2, 3, 3, 3, 4, 4, 4, 5, 5, 6])
     chosen = set(rng.sample(IIV_ETAS, k))
     etas = [e for e in IIV_ETAS if e in chosen]
     model = pm.remove_iiv(base, [e for e in IIV_ETAS if e not in etas]) if k < 6 else base
@@ -1201,8 +1213,11 @@ def case_iiv(rng, idx, tier):
     c.sample = {"family": "iiv", "etas": etas, "blocks": blocks, "keep": keep, "index_offset": offset, "elements": style}
     c.fp = fp_of("iiv", etas, blocks, keep, offset, style)
     c.nontrivial = k >= 2
+    # a linearized-model style mapping eta -> parameter is accepted in place of deriving it from the model
+    mapping = {e: ETA_PARAM[e] for e in etas_now} if rng.random() < 0.5 else None
+    c.sample["param_mapping"] = bool(mapping)
     try:
-        wf = ia.td_exhaustive_no_of_etas(model, index_offset=offset, keep=keep)
+        wf = ia.td_exhaustive_no_of_etas(model, index_offset=offset, keep=keep, param_mapping=mapping)
     except Exception as e:
         c.violate(None, f"td_exhaustive_no_of_etas raised {type(e).__name__}: {str(e)[:200]}", c.sample)
     else:
@@ -1219,7 +1234,7 @@ def case_iiv(rng, idx, tier):
         if sorted(names) != sorted(f"iivsearch_run{i + offset}" for i in range(1, len(cands) + 1)):
             c.violate(None, f"[td_exhaustive_no_of_etas] candidate names not unique / not iivsearch_run{1 + offset}..: {names[:4]}", c.sample)
     try:
-        wf = ia.td_exhaustive_block_structure(model, index_offset=offset)
+        wf = ia.td_exhaustive_block_structure(model, index_offset=offset, param_mapping=mapping)
     except Exception as e:
         c.violate(None, f"td_exhaustive_block_structure raised {type(e).__name__}: {str(e)[:200]}", c.sample)
     else:
